@@ -156,6 +156,8 @@ fn evaluate_one(what: &str, name: &str, loader: &Rc<MemLoader>, ctx: &mut Contex
     let mut rec = Map::new();
     rec.insert("what".into(), json!(what));
     rec.insert("name".into(), json!(name));
+    // VM depths around the whole host entry (load + link + evaluate + job drains): property C07
+    rec.insert("d0".into(), crate::session::depths(ctx));
     match loader.get(name, ctx) {
         Err(e) => {
             // the entry itself does not parse: reported like a rejected evaluation promise
@@ -182,6 +184,7 @@ fn evaluate_one(what: &str, name: &str, loader: &Rc<MemLoader>, ctx: &mut Contex
             }
         }
     }
+    rec.insert("d1".into(), crate::session::depths(ctx));
     rec.insert("t".into(), json!([t0, util::trace_len()]));
     rec.insert("loads".into(), json!([l0, loader.log.borrow().len()]));
     Value::Object(rec)
